@@ -698,6 +698,7 @@ impl World for WindowWorld {
                 "probe.window_of_a_second_or_more",
                 "probe.text_field_that_looks_numeric",
                 "probe.stream_of_more_than_1024_events",
+                "probe.timestamps_beyond_2_to_the_31",
             ],
             quick_runs: 1_500_000,
             thorough_runs: 40_000_000,
@@ -774,6 +775,14 @@ impl World for WindowWorld {
             e.ts *= scale;
             e.clock_adv *= scale;
         }
+        // epoch offset (swarm; the Alpha kinds already live at the simulated clock's ~1.7e12): real streams carry
+        // epoch milliseconds, and arithmetic that is fine near zero may truncate or wrap beyond 2^31, 2^32, 2^53
+        if !alpha {
+            let offset = *rng.pick(&[0i64, 0, 0, 1_700_000_000_000, (1 << 31) - 20, (1i64 << 32) - 20, 1i64 << 53]);
+            for e in events.iter_mut() {
+                e.ts += offset;
+            }
+        }
         WinTrace { hash_seed, kind, duration_ms, cap, max_windows, events, tick_pattern }
     }
 
@@ -791,6 +800,9 @@ impl World for WindowWorld {
         let distinct_windows: BTreeSet<i64> = t.events.iter().map(|e| e.ts.div_euclid(t.duration_ms as i64)).collect();
         obs.nontrivial = t.events.len() >= 3 && obs.faulty && (distinct_windows.len() >= 2 || t.events.len() > t.cap);
         obs.fp_str(&format!("{:?}|{}|{}|{}|{:?}|{:?}", t.kind, t.duration_ms, t.cap, t.max_windows, t.events, t.tick_pattern));
+        if !alpha && t.events.iter().any(|e| e.ts >= 1 << 31) {
+            obs.count("probe.timestamps_beyond_2_to_the_31");
+        }
         if t.events.len() > 1024 {
             obs.count("probe.stream_of_more_than_1024_events");
         }
@@ -841,6 +853,21 @@ impl World for WindowWorld {
         }
         if t.hash_seed != 1 {
             out.push(WinTrace { hash_seed: 1, ..t.clone() });
+        }
+        // the whole history closer to zero (by whole windows, so that the alignment stays)
+        if !matches!(t.kind, Kind::AlphaSliding | Kind::AlphaTumbling | Kind::AlphaNoWindow) {
+            if let Some(m) = t.events.iter().map(|e| e.ts).min() {
+                let d = t.duration_ms.max(1) as i64;
+                for off in [m / d * d, m / 2 / d * d, (1i64 << 31) / d * d] {
+                    if off > 0 && off <= m {
+                        let mut c = t.clone();
+                        for e in c.events.iter_mut() {
+                            e.ts -= off;
+                        }
+                        out.insert(0, c);
+                    }
+                }
+            }
         }
         // the whole history in a smaller unit
         for k in [60_000i64, 1000, 7] {
